@@ -1498,6 +1498,8 @@ from mlmverif.selfcheck import B, OK  # noqa: E402
 _R = 'aggregates/rolling_stats.py'
 _C = 'aggregates/classification.py'
 VARIANTS = [
+    OK('mean-update-through-locals', 'aggregates/rolling_stats.py',
+       "    update = mean_diff * math_utils.safe_divide(other.count, self._count)\n    self._mean = math_utils.nanadd(self._mean, update)", "    weight = math_utils.safe_divide(other.count, self._count)\n    update = mean_diff * weight\n    self._mean = math_utils.nanadd(self._mean, update)"),
     OK('sampler-merge-loop-variables-renamed', 'aggregates/rolling_stats.py',
        "    for samples, others in zip(self._samples, other.samples, strict=True):\n      samples.extend(others)\n", "    for mine, theirs in zip(self._samples, other.samples, strict=True):\n      mine.extend(theirs)\n"),
     B('relative-difference-counts-rows', 'aggregates/rolling_stats.py',
